@@ -1,4 +1,4 @@
 SPECIFICATION Spec
-CONSTANT EdgeReinsertMovesToBack = TRUE
+CONSTANT EdgeReinsertMovesToBack = FALSE
 POSTCONDITION Accepted
 CHECK_DEADLOCK FALSE
